@@ -58,6 +58,16 @@ mut("C04", "previous-operator-not-restored", MAN,
 mut("C04", "context-operator-stored-at-construction", MAN,
     "        # operators of the enclosing contexts, one per entry of this object\n        self._previous_ops = []\n",
     "        # operators of the enclosing contexts, one per entry of this object\n        self._previous_ops = []\n        self.manager.store_current_basis_operator(self.op)\n")
+mut("C04", "dipole-component-on-a-view", "quantarhei/qm/hilbertspace/dmoment.py",
+    "        return SelfAdjointOperator(dim=self.dim, data=self.data[:,:,n].copy())", "        return SelfAdjointOperator(dim=self.dim, data=self.data[:,:,n])")
+mut("C04", "lindblad-operators-share-sbi-array", "quantarhei/qm/liouvillespace/lindbladform.py",
+    "            KK = sbi.KK.copy()\n", "            KK = sbi.KK\n")
+mut("C04", "superoperator-registered-before-validation", "quantarhei/qm/liouvillespace/superoperator.py",
+    "        # name used in the messages about basis changes\n        self.name = \"\"\n", "        # name used in the messages about basis changes\n        self.name = \"\"\n        if cb != 0:\n            self.manager.register_with_basis(cb,self)\n")
+mut("C09", "ft-query-writes-temperature-into-parameters", "quantarhei/qm/corfunctions/spectraldensities.py",
+    "            prms = prms.copy()\n            if temperature is not None:\n                prms[\"T\"] = temperature", "            if temperature is not None:\n                prms[\"T\"] = temperature")
+mut("C19", "derived-spectrum-on-a-view", "quantarhei/spectroscopy/twod2.py",
+    "        twod.set_data(numpy.array(self.d__data))", "        twod.set_data(self.d__data[:,:])")
 mut("C05", "units-backup-single-slot", MAN,
     "        self.units_backup = self._units_backups.pop()\n        self.manager.set_current_units(\"energy\",self.units_backup)",
     "        self._units_backups.pop()\n        self.manager.set_current_units(\"energy\",self.units_backup)")
